@@ -50,6 +50,17 @@ dst = os.path.join(HERE, 'seeded', name)
 os.makedirs(dst, exist_ok=True)
 for f in ('patch.diff', 'demo.py'):
     shutil.copy(os.path.join(src, f), os.path.join(dst, f))
+prev = None
+try:
+    prev = json.load(open(os.path.join(dst, 'meta.json')))
+except Exception:
+    pass
+hist = (prev or {}).get('history', [])
+if prev and prev.get('evaluation'):
+    e = prev['evaluation']
+    hist.append(dict(check_cmd=e.get('check_cmd'), caught=e.get('caught'), caught_by=e.get('caught_by'), verif_commit=e.get('verif_commit')))
+res['verif_commit'] = subprocess.run('git -C %s log --format=%%h -1' % HERE, shell=True, capture_output=True, text=True).stdout.strip()
+meta['history'] = hist
 meta['evaluation'] = res
 json.dump(meta, open(os.path.join(dst, 'meta.json'), 'w'), indent=1)
 print(name, 'confirmed=%s caught=%s' % (res.get('confirmed'), res.get('caught')), res.get('caught_by'), res.get('baseline'))
